@@ -71,7 +71,8 @@ def kernel_binding(prog, pub, path):
     bind = {}
     casts = {}
     pmap = getattr(path, 'param_map', None)
-    for p, a in list(zip(f.params, path.args)) + list(path.keywords.items()):
+    from ..backends import splice_starred
+    for p, a in list(zip(f.params, splice_starred(prog, path.scope, path.args))) + list(path.keywords.items()):
         a = local_value(path.scope, a)
         root, cs = band_root(a)
         if pmap is not None and root is not None:
@@ -241,6 +242,21 @@ def check_validate(prog, rep, pub, bands):
                 for a in n.args:
                     if isinstance(a, ast.Name):
                         cov.add(a.id)
+    if any(b not in cov for b in bands):
+        # through helpers: the call as a wrapper term (arguments bound to the public parameters wherever it is made)
+        from ..wterm import WT
+        va = prog.func('utils', 'validate_arrays')
+        w_ = WT(prog, keep=[va])
+        try:
+            w_.run(pub)
+        except Exception:      # noqa
+            w_ = None
+        for c_ in (w_.calls if w_ is not None else []):
+            if c_.callee is va:
+                line = c_.node.lineno
+                for a_ in c_.args:
+                    if isinstance(a_, tuple) and a_ and a_[0] == 'param':
+                        cov.add(a_[1])
     missing = [b for b in bands if b not in cov]
     rep.add('M6-validate', pub, pub.name, 'validate_arrays(%s)' % ', '.join(sorted(cov)), line, not missing,
             'all band rasters must be validated for equal shape/type (and aligned chunks) before dispatch; '
